@@ -43,6 +43,11 @@ class C04Lowerer(Lowerer):
 
     # ---------------------------------------------------------------- reference-returning getters
     def lower(self, extra_params=()):
+        m = re.match(r'auto (\(.*\)(?: const)?(?: noexcept)?) -> (.+)$', qt(self.decl))
+        if m:
+            # lambda call operator written with a trailing return type: `auto (...) const -> R`  ==  `R (...) const`
+            self.decl = dict(self.decl, type=dict(self.decl['type'], qualType='%s %s' % (m.group(2), m.group(1))))
+            self.fire('signature:trailing-return-type')
         rett = qt(self.decl).split('(')[0].strip()
         if rett.endswith('&') and not rett.endswith('&&'):
             try:
@@ -251,13 +256,46 @@ def from_dom(lw, node, args):
         lw.repo_callees.add('StarttlsProceed_fromDom')
         lw.pre.append('OptNonza %s; StarttlsProceed_fromDom(&%s, %s);' % (tmp, tmp, ', '.join(args)))
         return tmp
+    if t == 'std::variant<StreamErrorElement,QXmppError>':
+        tmp = lw.newtmp()
+        lw.repo_callees.add('StreamErrorElement_fromDom')
+        lw.pre.append('StreamErrorResult %s; StreamErrorElement_fromDom(&%s, %s);' % (tmp, tmp, ', '.join(args)))
+        return tmp
     raise Unsupported('fromDom returning %s' % t)
+
+
+def get_if(lw, node, args):
+    """std::get_if<StreamErrorElement>(&result)"""
+    t = short(dqt(lw.skip(node)))
+    if t.replace(' ', '') in ('StreamErrorElement*', 'add_pointer_t<StreamErrorElement>', 'typenameremove_reference<StreamErrorElement>::type*'):
+        return 'StreamErrorResult_get_if_element(%s)' % args[0]
+    raise Unsupported('get_if yielding %s' % t)
 
 
 def empty_nonza(lw, node):
     if [c for c in node.get('inner', []) if isinstance(c, dict) and c.get('kind')]:
         raise Unsupported('initialiser list of a nonza struct with members')
     return '((qnonza)0)'
+
+
+def element_received(lw, node, args):
+    """Q_EMIT elementReceived(element, handled): `handled` is a bool& out-parameter (clang's MemberExpr carries no signature)"""
+    h = lw.skip(node['inner'][2])
+    if h.get('kind') != 'DeclRefExpr' or lw.ntype(h) != 'bool':
+        raise Unsupported('elementReceived: second argument is not a bool lvalue')
+    lw.repo_callees.add('QXmppOutgoingClient_elementReceived')
+    return 'QXmppOutgoingClient_elementReceived(%s, %s, %s)' % (args[0], args[1], lw.addr_of(args[2]))
+
+
+def features_ctor(lw, node, target):
+    """QXmppStreamFeatures(): a value class owning a fresh private object -- both live on the stack of the lowered function"""
+    dst = target or lw.newtmp()
+    if not target:
+        lw.pre.append('QXmppStreamFeatures %s;' % dst)
+    priv = lw.newtmp()
+    lw.pre.append('QXmppStreamFeaturesPrivate %s;' % priv)
+    lw.pre.append('%s.d = &%s;' % (dst, priv))
+    return dst
 
 
 def profile(listener_type_keys):
@@ -293,6 +331,9 @@ def profile(listener_type_keys):
         'SendDataInterface': 'XmppSocket', PRIV + 'SendDataInterface': 'XmppSocket',
         'std::optional<QXmpp::Private::StarttlsProceed>': 'OptNonza', 'std::optional<StarttlsProceed>': 'OptNonza',
         'QXmppPromise<void>': 'qpromise',
+        'std::variant<StreamErrorElement,QXmppError>': 'StreamErrorResult', 'std::variant<QXmpp::Private::StreamErrorElement,QXmppError>': 'StreamErrorResult',
+        'StreamErrorElement': 'StreamErrorElement', PRIV + 'StreamErrorElement': 'StreamErrorElement',
+        'typename remove_reference<StreamErrorElement>::type': 'StreamErrorElement',
         'StarttlsProceed': 'qnonza', PRIV + 'StarttlsProceed': 'qnonza',
     }
     for k in listener_type_keys:
@@ -300,7 +341,7 @@ def profile(listener_type_keys):
     class_types = {'QXmppOutgoingClient', 'QXmppOutgoingClientPrivate', 'QXmppConfiguration', 'QXmppStreamFeatures', 'QSslSocket', 'XmppSocket',
                    'StarttlsManager', 'NonSaslAuthManager', 'SaslManager', 'Sasl2Manager', 'BindManager', 'C2sStreamManager', 'CsiManager',
                    'PingManager', 'StreamAckManager', 'OutgoingIqManager', 'Listener', 'OptSasl2Feature', 'Sasl2StreamFeature', 'ConnectionError',
-                   'OptNonza'}
+                   'OptNonza', 'StreamErrorResult', 'StreamErrorElement'}
     calls = {
         'op->:QXmppOutgoingClientPrivate*': ('expr', '{0}'),
         # --- Qt
@@ -330,6 +371,7 @@ def profile(listener_type_keys):
         'QXmppOutgoingClient::handleStarttls/1': ('callee', 'QXmppOutgoingClient_handleStarttls'),
         'QXmppOutgoingClient::handleStreamFeatures/1': ('callee', 'QXmppOutgoingClient_handleStreamFeatures'),
         'QXmppOutgoingClient::handleElement/1': ('callee', 'QXmppOutgoingClient_handleElement'),
+        'QXmppOutgoingClient::handleStart/0': ('callee', 'QXmppOutgoingClient_handleStart'),
         'StarttlsManager::handleElement/1': ('callee', 'StarttlsManager_handleElement'),
         # --- contracted callees (units/C04/callees.h): the wire, the guarded negotiation steps, the other listeners
         'XmppSocket::sendData/1': ('callee', 'XmppSocket_sendData'),
@@ -364,13 +406,22 @@ def profile(listener_type_keys):
         'op=:Listener:C2sStreamManager*': listener_assign,
         'ctor:ConnectionError(int)': ('init', '{{ {0} }}'),
         'qpromise::finish/0': ('fnmut', 'qpromise_finish'),
+        'qstr::clear/0': ('expr', '{0} = 0'),
+        'C2sStreamManager::onStreamStart/0': ('callee', 'C2sStreamManager_onStreamStart'),
         'fn:fromDom/1': from_dom,
+        'fn:get_if/1': get_if,
+        'fn:isStreamFeatures/1': ('callee', 'QXmppStreamFeatures_isStreamFeatures'),
+        'StreamAckManager::handleStanza/1': ('callee', 'StreamAckManager_handleStanza'),
+        'OutgoingIqManager::handleStanza/1': ('callee', 'OutgoingIqManager_handleStanza'),
+        'QXmppOutgoingClient::elementReceived/2': element_received,
+        'ctor:QXmppStreamFeatures()': features_ctor,
+        'QXmppStreamFeatures::parse/1': ('callee', 'QXmppStreamFeatures_parse'),
         'OptNonza::operator bool/0': ('expr', '({0})->has'),
         'ctor:OptNonza()': ('init', '{{ false }}'),
         'expr:InitListExpr:qnonza': empty_nonza,
         'ctor:OptNonza(qnonza)': ('init', '{{ true }}'),
     }
     p = opaque_profile(types=types, class_types=class_types, calls=calls,
-                       pure_fns={'configuration', 'socket', 'streamSecurityMode', 'tlsMode'})
+                       pure_fns={'configuration', 'socket', 'streamSecurityMode', 'tlsMode', 'domain', 'user', 'jidBare'})
     p.default_args['qstr'] = '0'
     return p
